@@ -23,7 +23,7 @@ pub fn prop() -> Prop {
         assumptions: vec![
             "the reference layout reader is written from the rustdoc of ImageRaw and of the two DataOrder types",
         ],
-        subs: vec![Sub::tape("images", 48, 600_000, 30_000_000, images)],
+        subs: vec![Sub::tape("images", 48, 400_000, 20_000_000, images)],
     }
 }
 
@@ -183,6 +183,19 @@ where
         ensure!(raw.pixel(p).is_none(), "pixel:outside", "pixel({:?}) is not None", p);
     }
 
+    // 2b. the drawable traits of the raw image itself: its bounding box sits at the origin, and drawing it
+    // directly (`ImageDrawable::draw`, what `Image` calls through a translated target) puts pixel (x, y) at (x, y)
+    ensure!(raw.bounding_box() == Rectangle::new(Point::zero(), Size::new(w, h)), "raw:bounding_box", "ImageRaw::bounding_box() = {:?} for a {}x{} image", raw.bounding_box(), w, h);
+    if (w as u64) * (h as u64) <= 4096 {
+        let mut direct = NativeT::<C>::new();
+        direct.0.log = false;
+        embedded_graphics::image::ImageDrawable::draw(&raw, &mut direct).map_err(|e| Fail { sig: "draw_error".into(), detail: format!("{:?}", e) })?;
+        for (&(x, y), c) in direct.0.map.iter() {
+            ensure!(reference(Point::new(x, y)) == Some(*c), "raw:direct_draw", "ImageDrawable::draw puts {:?} at ({}, {}), the documented layout has {:?} there", c, x, y, reference(Point::new(x, y)));
+        }
+        ensure!(direct.0.map.len() as u64 == w as u64 * h as u64, "raw:direct_draw_count", "ImageDrawable::draw paints {} points of a {}x{} image", direct.0.map.len(), w, h);
+    }
+
     // 3./4. drawing: the image itself or a (nested) sub-image
     // area of the drawn part in the coordinates of the raw image, by composition
     let mut area = Rectangle::new(Point::zero(), Size::new(w, h));
@@ -228,6 +241,7 @@ where
         1 => {
             let s1 = raw.sub_image(&subs[0]);
             ensure!(s1.size() == draw_size, "sub_image:size", "sub_image size {:?}, expected {:?}", s1.size(), draw_size);
+            ensure!(s1.bounding_box() == Rectangle::new(Point::zero(), draw_size), "sub_image:bounding_box", "sub_image bounding_box() = {:?}, expected the size {:?} at the origin", s1.bounding_box(), draw_size);
             draw_both!(&s1)
         }
         _ => {
@@ -265,9 +279,9 @@ where
 /// A target with a visible window: `fill_contiguous` stores the colours that fall into the window and
 /// advances the stream with `Iterator::nth` over all others (one call per hidden stretch, which may
 /// span several rows), `draw_iter` filters by the window.
-struct SkipT<C> {
-    window: Rectangle,
-    map: Map<C>,
+pub struct SkipT<C> {
+    pub window: Rectangle,
+    pub map: Map<C>,
 }
 
 impl<C: PixelColor> embedded_graphics::geometry::Dimensions for SkipT<C> {
